@@ -299,6 +299,9 @@ func (e *Engine) applyContract(fr *Frame, st *State, ins ssa.Instruction, c *Con
 		}
 		env := &SpecEnv{e: e, pre: st, post: st, vars: vars, pkg: pkg}
 		g := env.evalBool(r.E)
+		if st.known(g) == 1 {
+			continue // already established on this path (e.g. by an earlier call site)
+		}
 		e.emit(&Obligation{Kind: "pre-call", Fn: funcKey(e.curFn), Label: key + ":" + orStr(r.Label, r.Src), PC: st.pc, Goal: g, Src: r.Src, Line: e.pos(ins), Trace: st.trace})
 		st.assume(g)
 	}
@@ -343,7 +346,8 @@ func (e *Engine) applyContract(fr *Frame, st *State, ins ssa.Instruction, c *Con
 	}
 	for _, sc := range c.Sets {
 		// ghost assignment at exit: value computed over the post-state of the Go heap and the pre-state of ghosts named old()
-		env := &SpecEnv{e: e, pre: old, post: st, vars: vars, pkg: pkg, allocBefore: allocBefore}
+		// the assigned value is computed over the state in which the callee was entered (its inputs) and the results
+		env := &SpecEnv{e: e, pre: old, post: old, vars: vars, pkg: pkg, allocBefore: allocBefore}
 		v := env.eval(sc.E)
 		g := e.db.Ghosts[sc.Ghost]
 		if g == nil {
